@@ -21,4 +21,5 @@ PROPERTY Precedence
 PROPERTY Tolerant
 PROPERTY ForeignUntouched
 PROPERTY ReloadKeeps
+PROPERTY StartupFileAgrees
 CHECK_DEADLOCK FALSE
